@@ -44,7 +44,52 @@ type Parent struct {
 	BossID *uint
 	Boss   *Child  `gorm:"foreignKey:BossID"`
 	Kids   []Child `gorm:"foreignKey:ParentID"`
+	// a second belongs-to and a second has-many, so that each association callback has two
+	// relations to save; Item has a composite key of which gorm knows only the foreign-key half
+	// until the item's own BeforeCreate assigns the line number
+	MentorID *uint
+	Mentor   *Child `gorm:"foreignKey:MentorID"`
+	Items    []Item `gorm:"foreignKey:ParentID"`
 }
+
+// Item: has-many child of Parent with the composite primary key (parent_id, line_no).
+type Item struct {
+	ParentID uint `gorm:"primaryKey;autoIncrement:false"`
+	LineNo   uint `gorm:"primaryKey;autoIncrement:false"`
+	Tag      string
+	Name     string
+}
+
+func (Item) TableName() string { return "items" }
+
+// lineOf: the line number an item gets, from its tag "<parent>.i<k>" -> k+1.
+func lineOf(tag string) uint {
+	i := strings.LastIndex(tag, ".i")
+	if i < 0 {
+		return 0
+	}
+	n, _ := strconv.Atoi(tag[i+2:])
+	return uint(n + 1)
+}
+
+func (it *Item) hook(tx *gorm.DB, name string) error {
+	return cur.hook(tx, "Item", name, unsafe.Pointer(it), it.Tag, func(v string) { it.Name = v })
+}
+
+func (it *Item) BeforeSave(tx *gorm.DB) error { return it.hook(tx, hBeforeSave) }
+func (it *Item) BeforeCreate(tx *gorm.DB) error {
+	if it.LineNo == 0 {
+		it.LineNo = lineOf(it.Tag) // the second half of the key is assigned here
+	}
+	return it.hook(tx, hBeforeCreate)
+}
+func (it *Item) AfterCreate(tx *gorm.DB) error  { return it.hook(tx, hAfterCreate) }
+func (it *Item) BeforeUpdate(tx *gorm.DB) error { return it.hook(tx, hBeforeUpdate) }
+func (it *Item) AfterUpdate(tx *gorm.DB) error  { return it.hook(tx, hAfterUpdate) }
+func (it *Item) AfterSave(tx *gorm.DB) error    { return it.hook(tx, hAfterSave) }
+func (it *Item) BeforeDelete(tx *gorm.DB) error { return it.hook(tx, hBeforeDelete) }
+func (it *Item) AfterDelete(tx *gorm.DB) error  { return it.hook(tx, hAfterDelete) }
+func (it *Item) AfterFind(tx *gorm.DB) error    { return it.hook(tx, hAfterFind) }
 
 type Child struct {
 	ID       uint `gorm:"primaryKey"`
@@ -347,14 +392,14 @@ func (c *Case) kit() *kit {
 
 // applicable: the model's method set has the hook (children implement all nine).
 func applicable(model, hook string) bool {
-	if model == "Child" {
+	if model == "Child" || model == "Item" {
 		return true
 	}
 	return kits[model].hooks[hook]
 }
 
 func valueHook(model, hook string) bool {
-	if model == "Child" {
+	if model == "Child" || model == "Item" {
 		return false
 	}
 	return kits[model].valueHooks[hook]
@@ -439,6 +484,9 @@ type RecSpec struct {
 	Age  int
 	Boss *KidSpec
 	Kids []KidSpec
+	// Parent only: second belongs-to, composite-key has-many
+	Mentor *KidSpec
+	Items  []KidSpec
 }
 
 type SeedRow struct {
@@ -470,24 +518,25 @@ const (
 )
 
 type Case struct {
-	Model      string // top-level model type ("" = Parent)
-	Audit      bool   // every hook invocation also writes a row into audits through its handle
-	Seed       []SeedRow
-	Op         string
-	Shape      string
-	Recs       []RecSpec // in-memory records handed to the operation (write operations)
-	IDs        []uint    // keys selected by the condition (find / first / delete by condition)
-	Batch      int       // CreateInBatches
-	Form       string    // updates / updatecolumns: "struct" | "map"
-	NewNote    string    // value written by the update operations
-	CallerName string    // update operations: the caller also writes the name column ("" | "field": key/field Name | "column": key name)
-	DelKids    bool      // delete: Select("Kids") - the has-many children are deleted by a nested Delete with its own hooks
-	Preload    []string  // find / first
-	SkipHooks  bool
-	InTx       bool   // run inside a caller transaction (Begin ... Commit/Rollback)
-	Set        string // "" | "direct" | "setcolumn": what the setter before-hook does to Name
-	SetIn      string // hBeforeSave | "specific" (BeforeCreate / BeforeUpdate)
-	Probe      string // "exec" | "raw"
+	PresetLines bool   // items come with their line number already set (always when no hook runs)
+	Model       string // top-level model type ("" = Parent)
+	Audit       bool   // every hook invocation also writes a row into audits through its handle
+	Seed        []SeedRow
+	Op          string
+	Shape       string
+	Recs        []RecSpec // in-memory records handed to the operation (write operations)
+	IDs         []uint    // keys selected by the condition (find / first / delete by condition)
+	Batch       int       // CreateInBatches
+	Form        string    // updates / updatecolumns: "struct" | "map"
+	NewNote     string    // value written by the update operations
+	CallerName  string    // update operations: the caller also writes the name column ("" | "field": key/field Name | "column": key name)
+	DelKids     bool      // delete: Select("Kids") - the has-many children are deleted by a nested Delete with its own hooks
+	Preload     []string  // find / first
+	SkipHooks   bool
+	InTx        bool   // run inside a caller transaction (Begin ... Commit/Rollback)
+	Set         string // "" | "direct" | "setcolumn": what the setter before-hook does to Name
+	SetIn       string // hBeforeSave | "specific" (BeforeCreate / BeforeUpdate)
+	Probe       string // "exec" | "raw"
 }
 
 func (k KidSpec) String() string { return k.Tag }
@@ -500,6 +549,12 @@ func (r RecSpec) String() string {
 	if len(r.Kids) > 0 {
 		s += fmt.Sprintf("+%dkids", len(r.Kids))
 	}
+	if r.Mentor != nil {
+		s += "+mentor"
+	}
+	if len(r.Items) > 0 {
+		s += fmt.Sprintf("+%ditems", len(r.Items))
+	}
 	return s
 }
 
@@ -508,6 +563,9 @@ func (c Case) String() string {
 	fmt.Fprintf(&b, "%s seed=%v %s %s", c.kit().name, c.Seed, c.Op, c.Shape)
 	if c.Audit {
 		b.WriteString(" hooks-write-audits")
+	}
+	if c.PresetLines {
+		b.WriteString(" item-lines-preset")
 	}
 	if len(c.Recs) > 0 || c.Shape != shCond {
 		fmt.Fprintf(&b, " recs=%v", c.Recs)
@@ -601,7 +659,7 @@ func materialize(c *Case) seedContent {
 func openDB(c *Case) *testdb.DB {
 	d := testdb.Open(testdb.Options{Config: gorm.Config{DisableForeignKeyConstraintWhenMigrating: true}})
 	if ddl == nil {
-		if err := d.AutoMigrate(&Parent{}, &Child{}, &SaveOnly{}, &Plain{}); err != nil {
+		if err := d.AutoMigrate(&Parent{}, &Child{}, &Item{}, &SaveOnly{}, &Plain{}); err != nil {
 			panic("harness: migrate: " + err.Error())
 		}
 		if err := d.Exec("CREATE TABLE audits (id integer PRIMARY KEY AUTOINCREMENT, n integer, what text)").Error; err != nil {
@@ -642,12 +700,20 @@ func openDB(c *Case) *testdb.DB {
 }
 
 type pRow struct {
-	ID     uint
-	Tag    string
-	Name   string
-	Note   string
-	Age    int
-	BossID *uint
+	ID       uint
+	Tag      string
+	Name     string
+	Note     string
+	Age      int
+	BossID   *uint
+	MentorID *uint
+}
+
+type iRow struct {
+	ParentID uint
+	LineNo   uint
+	Tag      string
+	Name     string
 }
 
 type cRow struct {
@@ -668,6 +734,7 @@ type tables struct {
 	Main string
 	P    []pRow
 	C    []cRow
+	I    []iRow
 	A    []aRow
 }
 
@@ -682,11 +749,15 @@ func (t tables) String() string {
 	var b strings.Builder
 	b.WriteString(t.Main + ":")
 	for _, r := range t.P {
-		fmt.Fprintf(&b, " {%d %s %q %q %d boss=%s}", r.ID, r.Tag, r.Name, r.Note, r.Age, up(r.BossID))
+		fmt.Fprintf(&b, " {%d %s %q %q %d boss=%s mentor=%s}", r.ID, r.Tag, r.Name, r.Note, r.Age, up(r.BossID), up(r.MentorID))
 	}
 	b.WriteString(" children:")
 	for _, r := range t.C {
 		fmt.Fprintf(&b, " {%d %s %q parent=%s}", r.ID, r.Tag, r.Name, up(r.ParentID))
+	}
+	b.WriteString(" items:")
+	for _, r := range t.I {
+		fmt.Fprintf(&b, " {%d/%d %s %q}", r.ParentID, r.LineNo, r.Tag, r.Name)
 	}
 	b.WriteString(" audits:")
 	for _, r := range t.A {
@@ -707,10 +778,11 @@ func dump(d *testdb.DB, c *Case) (tables, string) {
 	d.Rec.Pause()
 	saved := cur
 	cur = nil
-	boss := "NULL AS boss_id"
+	boss := "NULL AS boss_id, NULL AS mentor_id"
 	if t.Main == "parents" {
-		boss = "boss_id"
+		boss = "boss_id, mentor_id"
 	}
+	e6 := d.Raw("SELECT parent_id, line_no, tag, name FROM items ORDER BY parent_id, line_no, tag").Scan(&t.I).Error
 	e1 := d.Raw("SELECT id, tag, name, note, age, " + boss + " FROM " + t.Main + " ORDER BY id").Scan(&t.P).Error
 	e2 := d.Raw("SELECT id, tag, name, parent_id FROM children ORDER BY id").Scan(&t.C).Error
 	e3 := d.Raw("SELECT name, seq FROM sqlite_sequence ORDER BY name").Scan(&seqs).Error
@@ -718,8 +790,8 @@ func dump(d *testdb.DB, c *Case) (tables, string) {
 	e5 := d.Raw("SELECT count(*) FROM parents UNION ALL SELECT count(*) FROM flats UNION ALL SELECT count(*) FROM plains").Scan(&others).Error
 	cur = saved
 	d.Rec.Resume()
-	if e1 != nil || e2 != nil || e3 != nil || e4 != nil || e5 != nil {
-		panic(fmt.Sprintf("harness: dump: %v %v %v %v %v", e1, e2, e3, e4, e5))
+	if e1 != nil || e2 != nil || e3 != nil || e4 != nil || e5 != nil || e6 != nil {
+		panic(fmt.Sprintf("harness: dump: %v %v %v %v %v %v", e1, e2, e3, e4, e5, e6))
 	}
 	return t, fmt.Sprintf("%s seq=%v rows(parents,flats,plains)=%v", t, seqs, others)
 }
@@ -748,6 +820,12 @@ func buildParent(r RecSpec) Parent {
 	}
 	for _, k := range r.Kids {
 		p.Kids = append(p.Kids, Child{Tag: k.Tag, Name: k.Name})
+	}
+	if r.Mentor != nil {
+		p.Mentor = &Child{Tag: r.Mentor.Tag, Name: r.Mentor.Name}
+	}
+	for _, k := range r.Items {
+		p.Items = append(p.Items, Item{Tag: k.Tag, Name: k.Name})
 	}
 	return p
 }
@@ -831,6 +909,15 @@ func buildParentMem(c *Case) *memory {
 		}
 		for i := range p.Kids {
 			m.ptrs[p.Kids[i].Tag] = uintptr(unsafe.Pointer(&p.Kids[i]))
+		}
+		if p.Mentor != nil {
+			m.ptrs[p.Mentor.Tag] = uintptr(unsafe.Pointer(p.Mentor))
+		}
+		for i := range p.Items {
+			if c.PresetLines {
+				p.Items[i].LineNo = lineOf(p.Items[i].Tag)
+			}
+			m.ptrs[p.Items[i].Tag] = uintptr(unsafe.Pointer(&p.Items[i]))
 		}
 	}
 	return m
@@ -1244,6 +1331,12 @@ func expect(c *Case, m *memory) expectation {
 			for _, kd := range r.Kids {
 				ex.Wants = append(ex.Wants, want{Tag: kd.Tag, Model: "Child", Kind: "create", Table: "children", Parent: p.Tag, Ptr: m.ptrs[kd.Tag]})
 			}
+			if r.Mentor != nil {
+				ex.Wants = append(ex.Wants, want{Tag: r.Mentor.Tag, Model: "Child", Kind: "create", Table: "children", Parent: p.Tag, Ptr: m.ptrs[r.Mentor.Tag]})
+			}
+			for _, kd := range r.Items {
+				ex.Wants = append(ex.Wants, want{Tag: kd.Tag, Model: "Item", Kind: "create", Table: "items", Parent: p.Tag, Ptr: m.ptrs[kd.Tag]})
+			}
 		}
 	}
 	return ex
@@ -1591,6 +1684,31 @@ func checkStored(c *Case, ex expectation, res runResult) []string {
 			if r.Boss != nil {
 				kids = append(kids, *r.Boss)
 			}
+			if r.Mentor != nil {
+				kids = append(kids, *r.Mentor)
+			}
+			for _, k := range r.Items {
+				var irows []iRow
+				for _, ir := range t.I {
+					if ir.Tag == k.Tag {
+						irows = append(irows, ir)
+					}
+				}
+				if len(irows) != 1 {
+					bad("item record %s is stored %d times", k.Tag, len(irows))
+					continue
+				}
+				wantName := k.Name
+				if set {
+					wantName = c.setValue(k.Tag)
+				}
+				if irows[0].Name != wantName {
+					bad("item record %s: expected stored name %q (set=%q), the row holds %q", k.Tag, wantName, c.Set, irows[0].Name)
+				}
+				if irows[0].ParentID != row.ID || irows[0].LineNo != lineOf(k.Tag) {
+					bad("item record %s is stored under key (%d,%d), expected (%d,%d)", k.Tag, irows[0].ParentID, irows[0].LineNo, row.ID, lineOf(k.Tag))
+				}
+			}
 			for _, k := range kids {
 				crows := cByTag[k.Tag]
 				if len(crows) != 1 {
@@ -1607,6 +1725,10 @@ func checkStored(c *Case, ex expectation, res runResult) []string {
 				if r.Boss != nil && k.Tag == r.Boss.Tag {
 					if row.BossID == nil || *row.BossID != crows[0].ID {
 						bad("record %s does not reference its boss row %d", r.Tag, crows[0].ID)
+					}
+				} else if r.Mentor != nil && k.Tag == r.Mentor.Tag {
+					if row.MentorID == nil || *row.MentorID != crows[0].ID {
+						bad("record %s does not reference its mentor row %d", r.Tag, crows[0].ID)
 					}
 				} else if crows[0].ParentID == nil || *crows[0].ParentID != row.ID {
 					bad("child record %s does not reference its parent row %d", k.Tag, row.ID)
@@ -1747,6 +1869,17 @@ func caseClasses(c *Case) []string {
 	cl = append(cl, fmt.Sprintf("records:%d", n))
 	kids, boss := false, false
 	for _, r := range c.Recs {
+		if r.Mentor != nil && r.Boss != nil {
+			cl = append(cl, "children:two-belongs-to")
+		}
+		if len(r.Items) >= 2 {
+			cl = append(cl, "children:composite-key-items>=2")
+		} else if len(r.Items) == 1 {
+			cl = append(cl, "children:composite-key-item")
+		}
+		if len(r.Items) > 0 && len(r.Kids) > 0 {
+			cl = append(cl, "children:two-has-many")
+		}
 		if len(r.Kids) > 0 {
 			kids = true
 		}
@@ -1778,7 +1911,16 @@ func caseClasses(c *Case) []string {
 	if c.Set != "" {
 		cl = append(cl, "set:"+c.Set+"@"+c.SetIn)
 	}
-	return cl
+	// one label per case, not per record
+	seen := map[string]bool{}
+	out := cl[:0]
+	for _, x := range cl {
+		if !seen[x] {
+			seen[x] = true
+			out = append(out, x)
+		}
+	}
+	return out
 }
 
 func checkCase(t failer, c *Case) {
@@ -1791,8 +1933,13 @@ func checkCase(t failer, c *Case) {
 		if h >= 0 {
 			which = fmt.Sprintf("run with hook invocation #%d failing", h)
 		}
-		t.Fatalf("C13 violated (%s): %s\n  case: %s\n  returned error: %v\n  event log:%s\n  fault-free log:%s",
-			which, strings.Join(viol, "\n   and: "), desc, res.Err, renderLog(res.Log), renderLog(base.Log))
+		flog := ""
+		if h >= 0 {
+			flog = "\n  fault-free log:" + renderLog(base.Log)
+		}
+		// the verdict is repeated last: the driver shows the tail of a shard's output
+		t.Fatalf("C13 violated (%s): %s\n  case: %s\n  returned error: %v%s\n  event log:%s\n  => C13 violated (%s): %s\n     case: %s",
+			which, strings.Join(viol, "\n   and: "), desc, res.Err, flog, renderLog(res.Log), which, viol[0], desc)
 	}
 	viol := append(problems, checkFaultFree(c, ex, base)...)
 	viol = append(viol, checkStored(c, ex, base)...)
@@ -1941,6 +2088,15 @@ func drawCase(t *rapid.T) *Case {
 				}
 			}
 			r.Boss, r.Kids = drawKids(t, tag, rich && k.hasKids, k.hasBoss)
+			if rich && isParent {
+				if rapid.IntRange(0, 2).Draw(t, tag+".mentor") == 0 {
+					r.Mentor = &KidSpec{Tag: tag + ".mentor", Name: "m-" + tag}
+				}
+				ni := rapid.SampledFrom([]int{0, 0, 1, 2, 3}).Draw(t, tag+".items")
+				for j := 0; j < ni; j++ {
+					r.Items = append(r.Items, KidSpec{Tag: fmt.Sprintf("%s.i%d", tag, j), Name: fmt.Sprintf("i%d-%s", j, tag)})
+				}
+			}
 			c.Recs = append(c.Recs, r)
 		}
 		if c.Op == opCreateBatches {
@@ -2023,6 +2179,13 @@ func drawCase(t *rapid.T) *Case {
 		// hooks of a write also write a side row through their handle (must be rolled back with the rest)
 		c.Audit = rapid.IntRange(0, 2).Draw(t, "audit") == 0
 	}
+	for _, r := range c.Recs {
+		if len(r.Items) > 0 {
+			// without hooks nothing would assign the line numbers; otherwise either way
+			c.PresetLines = !c.hooksRun() || rapid.IntRange(0, 2).Draw(t, "preset-lines") == 0
+			break
+		}
+	}
 	if c.Set != "" {
 		c.SetIn = rapid.SampledFrom([]string{hBeforeSave, "specific"}).Draw(t, "set-in")
 	}
@@ -2041,7 +2204,7 @@ func seedIDs(n int) []uint {
 
 const rule = "C13: rapid draws a top-level model type (Parent: all nine hooks, has-many and belongs-to children with their own hooks; or a hook SUBSET without associations: only BeforeSave+AfterSave, only AfterSave, only Before/AfterCreate, only Before/AfterUpdate, only Before/AfterDelete, only AfterFind, value-receiver Save hooks mixed with pointer-receiver Create/Update hooks; or Plain: no hooks, hooked has-many children) - the applicable hooks are read off the type's method set - " +
 	"an initial database (0-5 rows with 0-2 has-many children and an optional belongs-to child where the model has them) and one operation: " +
-	"Create / CreateInBatches / Save of &T, &[]T, &[]*T, []T, []*T (0-5 records; new, existing or missing keys for Save; optionally with new has-many and belongs-to children carrying their own hooks), " +
+	"Create / CreateInBatches / Save of &T, &[]T, &[]*T, []T, []*T (0-5 records; new, existing or missing keys for Save; optionally with new children carrying their own hooks: two belongs-to (Boss, Mentor), a has-many (Kids) and a has-many with the composite key (parent_id, line_no) whose line number the item's own BeforeCreate assigns (Items), so each association callback has two relations to save), " +
 	"Model(&T | &[]T | &[]*T).Updates(struct|map) / Update / UpdateColumn / UpdateColumns (the caller optionally writing the column the hook sets, named by field or by column), " +
 	"Delete of &T, pointer and value slices, or a zero value with a condition, optionally with Select(\"Kids\") (nested delete of the children with its own hooks), " +
 	"Find(&[]T | &[]*T | &T) / First(&T) of 0-5 rows with optional Preload of the children; with or without Session{SkipHooks}, inside or outside a caller transaction, " +
